@@ -124,6 +124,7 @@ func runC18events(t *rapid.T) {
 	s.GapScale = rapid.SampledFrom([]int{1, 3, 10}).Draw(t, "gap")
 	s.TraceOn = hx.Replaying()
 	ss := tcell.NewSimulationScreen(charset)
+	s.Note(hx.Fingerprint(charset, script, cscript))
 	var fail *hx.Failure
 	mk := func(tag, format string, args ...interface{}) {
 		if fail == nil {
@@ -331,6 +332,7 @@ func runC18draw(t *rapid.T) {
 	os.Setenv("LC_ALL", "en_US.UTF-8")
 	s := simrt.New(&simrt.Chooser{})
 	ss := tcell.NewSimulationScreen(charset)
+	s.Note(hx.Fingerprint(charset, w0, h0, ops))
 	var fail *hx.Failure
 	mk := func(tag, format string, args ...interface{}) {
 		if fail == nil {
